@@ -146,7 +146,8 @@ func fixSize(entries []raftpb.Entry, maxSize uint64) []raftpb.Entry {
 	for i := 0; i < len(entries); i++ {
 		size += entries[i].SizeUpperLimit()
 		if uint64(size) >= maxSize {
-			return entries[:i]
+			// Always return at least one entry, as the log reader does, a non-empty range must not look up to date.
+			return entries[:max(i, 1)]
 		}
 	}
 	return entries
